@@ -24,9 +24,9 @@ CHECKS["C13"] = dict(
 )
 CHECKS["C14"] = dict(
     engine="mirsym+kani",
-    technique="SMT (z3/cvc5, floating point + bit-vectors + arrays) over a symbolic execution of the real MIR of Bucket::try_consume, Engine::try_consume_key and JoinRateLimiter::check_join_allowed with symbolic clock; Kani/CBMC for the prefix helpers",
+    technique="SMT (z3/cvc5, floating point + bit-vectors + arrays) over a symbolic execution of the real MIR of Bucket::try_consume, Engine::try_consume_key, JoinRateLimiter::check_join_allowed and validation::RateLimiter::check_ip with symbolic clock; Kani/CBMC for the prefix helpers",
     category="proof",
-    text="Bounded proof by SMT: one attempt from an ARBITRARY bucket / engine / limiter state under an arbitrary non-decreasing clock: token and window budgets (exact f64 refill rule), per-key isolation, Ok charges exactly the global, /64, /48 (or /24) buckets of the masked address. Multi-step bounds follow by induction over the proved one-step relation. try_consume is verified on its real body and used through its proved contract at the map level. Counterexamples are replayed natively with a clock shim.",
+    text="Bounded proof by SMT: one attempt from an ARBITRARY bucket / engine / limiter state under an arbitrary non-decreasing clock: token and window budgets (exact f64 refill rule), per-key isolation, Ok charges exactly the global, /64, /48 (or /24) buckets of the masked address; the per-IP limiter on accepted connections (check_ip) charges the global bucket and the address's own bucket only. Multi-step bounds follow by induction over the proved one-step relation. try_consume is verified on its real body and used through its proved contract at the map level. Counterexamples are replayed natively with a clock shim.",
     note="Trusts the summaries (Instant/Duration arithmetic, LruCache as array, f64::min), the solvers, single-threaded execution; windows 60 s / 3600 s only, cfg values 1..1e6; concurrency and LRU eviction outside.",
     design_ref="4/C14",
 )
